@@ -31,4 +31,4 @@ for r in rows:
 # prune build artefacts of scratch trees (each scratch path gets its own incremental/engeom build in the shared target dir)
 subprocess.run("cd %s/.cache/replay-target/debug 2>/dev/null && find incremental -maxdepth 1 -mindepth 1 -mmin +45 ! -name '*main*' -exec rm -rf {} + ; "
                "find deps -maxdepth 1 -name '*vreplay_*' ! -name '*vreplay_main*' -mmin +45 -delete ; find . -maxdepth 1 -name 'vreplay_*' ! -name 'vreplay_main*' -mmin +45 -delete ; "
-               "rm -rf %s/.cache/replay-[0-9a-f]*" % (V, V), shell=True, capture_output=True)
+               "find %s/.cache -maxdepth 1 -name 'replay-[0-9a-f]*' -mmin +45 -exec rm -rf {} +" % (V, V), shell=True, capture_output=True)
